@@ -71,6 +71,13 @@ UsedIn(f) == {EX(i).name : i \in ExprsOf(f, {"name", "store"})}
 Kids(f)   == {k \in 1..Len(P.fns) : FN(k).parent = f}
 RECURSIVE FreeOf(_)
 FreeOf(f) == (UsedIn(f) \cup UNION {FreeOf(k) : k \in Kids(f)}) \ LocalsOf(f)
+(* the function whose variable a binding / use of nm written in function g refers to (0: none - an external name) *)
+RECURSIVE Owner(_, _)
+Owner(g, nm) == IF g = 0 THEN 0 ELSE IF nm \in LocalsOf(g) THEN g ELSE Owner(FN(g).parent, nm)
+(* some statement (assignment, unpacking, augmented assignment, for target, def) rebinds the variable nm of f *)
+Rebound(f, nm) ==
+  \/ \E i \in 1..Len(P.exprs) : EX(i).kind = "store" /\ EX(i).name = nm /\ Owner(EX(i).fn, nm) = f
+  \/ \E n \in 1..Len(P.nodes) : ND(n).kind = "def" /\ FN(ND(n).f).name = nm /\ Owner(ND(n).fn, nm) = f
 
 RECURSIVE CellOf(_, _, _)
 CellOf(es, env, name) ==
@@ -154,6 +161,11 @@ Strip(evs) == [i \in 1..Len(evs) |-> [o |-> evs[i].o, t |-> evs[i].t]]
 (* complete.  cshadow (closure clause): the calling function declares the         *)
 (* captured name nonlocal, or has a local of the same name - the state it passes  *)
 (* on as closure types speaks about its own names.                                *)
+(* chain (binding occurrences): the target is not the first one of a chained       *)
+(* assignment t1 = t2 = .. = e: "after-unpack" when a tuple target precedes it in  *)
+(* the statement, "after-name" otherwise.  ponly: the variable is a parameter that *)
+(* no statement rebinds (its only binding is the call); phide: that parameter has  *)
+(* the name of a variable of an enclosing function.                                *)
 HasAny(ts)  == \E i \in 1..Len(ts) : \E j \in 1..Len(ts[i]) : ts[i][j] = "any"
 Unknown(a)  == ~HasClaim(a) \/ HasAny(ClaimOf(a))
 UnkArgs(o)  == EX(o).kind \in {"bin", "cmp", "un", "sub", "tuple"}      \* (a list display / external call is typed whatever its operands)
@@ -168,7 +180,10 @@ BadRec(clause, o, t, nm, c, act) ==
            /\ HasClo(EX(o).fn, nm) /\ Covers(CloOf(EX(o).fn, nm), t),
    cshadow |-> clause = "closure" /\ c # 0 /\
                (IF envs[act].cellOf[nm] = 0 THEN nm \in Range(FN(envs[act].fn).nonlocals)
-                ELSE envs[act].cellOf[nm] # c)]
+                ELSE envs[act].cellOf[nm] # c),
+   chain |-> "",
+   ponly |-> c # 0 /\ w.kind = "param" /\ ~Rebound(envs[w.act].fn, nm),
+   phide |-> c # 0 /\ w.kind = "param" /\ Owner(FN(envs[w.act].fn).parent, nm) # 0]
 
 RECURSIVE Judge(_, _, _, _, _)
 Judge(evs, i, b, dirty, act) ==
@@ -193,35 +208,45 @@ TaintViol(g, fenv) ==
   LET cs == {CellOf(envs, fenv, nm) : nm \in ClosureViol(g, fenv)} IN
   [c \in 1..Len(cells) |-> IF c \in cs THEN [cells[c] EXCEPT !.taint = TRUE] ELSE cells[c]]
 
-(* bindings: ws = sequence of [o, name, v]; name = "" is an event without a cell  *)
-(* (the tuple target as a whole)                                                  *)
-RECURSIVE DoWrites(_, _, _, _, _, _, _, _, _, _)
-DoWrites(cl, es, env, ws, kind, dirty, n, b, evs, src) ==
+(* bindings: ws = sequence of [o, name, v, k, ch]; name = "" is an event without a cell (the tuple target as a *)
+(* whole); k = kind of the binding (param/assign/unpack/aug/for), ch = position in a chained assignment         *)
+Wr(o, nm, v, k, ch) == [o |-> o, name |-> nm, v |-> v, k |-> k, ch |-> ch]
+RECURSIVE DoWrites(_, _, _, _, _, _, _, _, _)
+DoWrites(cl, es, env, ws, dirty, n, b, evs, src) ==
   IF ws = <<>> THEN [cells |-> cl, bad |-> b, ev |-> evs]
   ELSE LET w == Head(ws)
            viol == HasClaim(w.o) /\ ~Covers(ClaimOf(w.o), w.v.t)
            b1 == IF viol /\ ~dirty
-                 THEN b \cup {[clause |-> "types", o |-> w.o, t |-> w.v.t, name |-> w.name, wk |-> kind, wc |-> TRUE,
+                 THEN b \cup {[clause |-> "types", o |-> w.o, t |-> w.v.t, name |-> w.name, wk |-> w.k, wc |-> TRUE,
                                wnode |-> n, wnl |-> FALSE, wrel |-> "store", unk |-> UnkSrc(src),
-                               clo |-> FALSE, cshadow |-> FALSE]}
+                               clo |-> FALSE, cshadow |-> FALSE, chain |-> w.ch, ponly |-> FALSE, phide |-> FALSE]}
                  ELSE b
            e1 == Append(evs, [o |-> w.o, t |-> w.v.t]) IN
-       IF w.name = "" THEN DoWrites(cl, es, env, Tail(ws), kind, dirty \/ viol, n, b1, e1, src)
+       IF w.name = "" THEN DoWrites(cl, es, env, Tail(ws), dirty \/ viol, n, b1, e1, src)
        ELSE LET c == CellOf(es, env, w.name)
-                cell == [v |-> w.v, w |-> W(kind, HasClaim(w.o) /\ ~UnkSrc(src), env, n, es[env].cellOf[w.name] = 0),
+                cell == [v |-> w.v, w |-> W(w.k, HasClaim(w.o) /\ ~UnkSrc(src), env, n, es[env].cellOf[w.name] = 0),
                          taint |-> dirty \/ viol] IN
-            DoWrites([cl EXCEPT ![c] = cell], es, env, Tail(ws), kind, dirty, n, b1, e1, src)
+            DoWrites([cl EXCEPT ![c] = cell], es, env, Tail(ws), dirty, n, b1, e1, src)
 
-(* the bindings an assignment target performs for value v *)
-Targets(tgt, v) ==
+(* the bindings one assignment target performs for value v *)
+Targets(tgt, v, ch) ==
   LET x == EX(tgt) IN
-  IF x.kind = "store" THEN [err |-> "", kind |-> "assign", ws |-> <<[o |-> tgt, name |-> x.name, v |-> v]>>]
+  IF x.kind = "store" THEN [err |-> "", ws |-> <<Wr(tgt, x.name, v, "assign", ch)>>]
   ELSE LET k == IterKind(v.t) IN
-       IF k # "ok" THEN [err |-> k, kind |-> "unpack", ws |-> <<>>]
-       ELSE IF Len(v.t) - 1 # Len(x.args) THEN [err |-> "ValueError", kind |-> "unpack", ws |-> <<>>]
-       ELSE [err |-> "", kind |-> "unpack",
-             ws |-> <<[o |-> tgt, name |-> "", v |-> v]>> \o
-                    [i \in 1..Len(x.args) |-> [o |-> x.args[i], name |-> EX(x.args[i]).name, v |-> Data(Elems(v.t)[i])]]]
+       IF k # "ok" THEN [err |-> k, ws |-> <<>>]
+       ELSE IF Len(v.t) - 1 # Len(x.args) THEN [err |-> "ValueError", ws |-> <<>>]
+       ELSE [err |-> "", ws |-> <<Wr(tgt, "", v, "unpack", ch)>> \o
+                    [i \in 1..Len(x.args) |-> Wr(x.args[i], EX(x.args[i]).name, Data(Elems(v.t)[i]), "unpack", ch)]]
+
+(* t1 = t2 = .. = e: every target is bound to the same value, from left to right (language reference 7.2); *)
+(* an exception in one target ends the statement                                                           *)
+ChainCtx(tgts, i) ==
+  IF i = 1 THEN "" ELSE IF \E j \in 1..(i - 1) : EX(tgts[j]).kind = "stuple" THEN "after-unpack" ELSE "after-name"
+RECURSIVE AllTargets(_, _, _, _)
+AllTargets(tgts, v, i, acc) ==
+  IF i > Len(tgts) THEN [err |-> "", ws |-> acc]
+  ELSE LET U == Targets(tgts[i], v, ChainCtx(tgts, i)) IN
+       IF U.err # "" THEN [err |-> U.err, ws |-> <<>>] ELSE AllTargets(tgts, v, i + 1, acc \o U.ws)
 
 (* ---- return: pop to the call frame and continue in the caller --------------- *)
 RECURSIVE Ret(_, _, _, _, _)
@@ -237,9 +262,9 @@ Ret(c, v, cl, evs, b) ==
        CASE d.kind = "expr"   -> [ctrl |-> rest, cells |-> cl, status |-> St("run", <<>>), ev |-> e1, bad |-> b1]
          [] d.kind = "return" -> Ret(rest, v, cl, e1, b1)
          [] d.kind = "assign" ->
-              LET U == Targets(d.tgt, v) IN
+              LET U == AllTargets(d.tgts, v, 1, <<>>) IN
               IF U.err # "" THEN [ctrl |-> <<>>, cells |-> cl, status |-> ErrStatus(U.err), ev |-> e1, bad |-> b1]
-              ELSE LET D == DoWrites(cl, envs, cenv, U.ws, U.kind, viol, f.node, b1, e1, d.e) IN
+              ELSE LET D == DoWrites(cl, envs, cenv, U.ws, viol, f.node, b1, e1, d.e) IN
                    [ctrl |-> rest, cells |-> D.cells, status |-> St("run", <<>>), ev |-> D.ev, bad |-> D.bad]
 
 RECURSIVE PopToLoop(_)
@@ -287,11 +312,11 @@ Enter ==
            es == <<E.env>>
            cl0 == [i \in 1..E.n |-> UnboundCell]
            ws == [i \in 1..Len(FN(1).params) |->
-                    [o |-> FN(1).params[i], name |-> EX(FN(1).params[i]).name, v |-> Data(FN(1).ptypes[i][ch[i]])]]
-           D == DoWrites(cl0, es, 1, ws, "param", FALSE, 0, bad, <<>>, 0) IN
+                    Wr(FN(1).params[i], EX(FN(1).params[i]).name, Data(FN(1).ptypes[i][ch[i]]), "param", "")]
+           D == DoWrites(cl0, es, 1, ws, FALSE, 0, bad, <<>>, 0) IN
        Set(<<Frame("call", FN(1).body, 0, 1)>>, D.cells, es, St("run", <<>>), D.ev, D.bad, ch)
 
-(* x = e, a, b = e, x op= e, e, return e  (e without a call of a local function) *)
+(* x = e, a, b = e, a, b = t = e (chained), x op= e, e, return e  (e without a call of a local function) *)
 ExecSimple ==
   /\ AtNode({"assign", "aug", "expr", "return"})
   /\ LET n == Top.blk[Top.i]  d == ND(n)  env == Top.env IN
@@ -308,15 +333,15 @@ ExecSimple ==
                  [] d.kind = "return" ->
                       LET R == Ret(ctrl, r.v, cells, E, J.bad) IN Set(R.ctrl, R.cells, envs, R.status, R.ev, R.bad, r.s.used)
                  [] d.kind = "assign" ->
-                      LET U == Targets(d.tgt, r.v) IN
+                      LET U == AllTargets(d.tgts, r.v, 1, <<>>) IN
                       IF U.err # "" THEN Halt(U.err, E, J.bad, r.s.used)
-                      ELSE LET D == DoWrites(cells, envs, env, U.ws, U.kind, J.dirty, n, J.bad, E, d.e) IN
+                      ELSE LET D == DoWrites(cells, envs, env, U.ws, J.dirty, n, J.bad, E, d.e) IN
                            Set(Adv(ctrl), D.cells, envs, status, D.ev, D.bad, r.s.used)
                  [] d.kind = "aug" ->
                       LET nv == AugVal(d.op, cells[oldc].v.t, r.v.t) IN
                       IF IsErr(nv) THEN Halt(nv[2], E, J.bad, r.s.used)
-                      ELSE LET D == DoWrites(cells, envs, env, <<[o |-> d.tgt, name |-> EX(d.tgt).name, v |-> Data(nv)]>>,
-                                             "aug", J.dirty \/ cells[oldc].taint, n, J.bad, E, 0) IN
+                      ELSE LET D == DoWrites(cells, envs, env, <<Wr(d.tgt, EX(d.tgt).name, Data(nv), "aug", "")>>,
+                                             J.dirty \/ cells[oldc].taint, n, J.bad, E, 0) IN
                            Set(Adv(ctrl), D.cells, envs, status, D.ev, D.bad, r.s.used)
 
 (* g(e..), x = g(e..), return g(e..)  with g a local function: push an activation *)
@@ -340,8 +365,8 @@ ExecCall ==
                      cl0 == TaintViol(g, fv.env) \o [i \in 1..N.n |-> UnboundCell]
                      b1 == J.bad \cup ClosureBad(g, fv.env, d.e, env)
                      ws == [i \in 1..Len(FN(g).params) |->
-                              [o |-> FN(g).params[i], name |-> EX(FN(g).params[i]).name, v |-> a.vs[i + 1]]]
-                     D == DoWrites(cl0, es, ne, ws, "param", J.dirty, n, b1, E, 0) IN
+                              Wr(FN(g).params[i], EX(FN(g).params[i]).name, a.vs[i + 1], "param", "")]
+                     D == DoWrites(cl0, es, ne, ws, J.dirty, n, b1, E, 0) IN
                  Set(Append(Adv(ctrl), Frame("call", FN(g).body, n, ne)), D.cells, es, status, D.ev, D.bad, a.s.used)
 
 ExecIf ==
@@ -390,8 +415,8 @@ ExecFor ==
        ELSE IF IterKind(r.v.t) # "ok" THEN Halt(IterKind(r.v.t), E, J.bad, r.s.used)
        ELSE LET items == Elems(r.v.t) IN
             IF items = <<>> THEN Set(Adv(ctrl), cells, envs, status, E, J.bad, r.s.used)
-            ELSE LET D == DoWrites(cells, envs, env, <<[o |-> d.tgt, name |-> EX(d.tgt).name, v |-> Data(items[1])]>>,
-                                   "for", J.dirty, n, J.bad, E, 0) IN
+            ELSE LET D == DoWrites(cells, envs, env, <<Wr(d.tgt, EX(d.tgt).name, Data(items[1]), "for", "")>>,
+                                   J.dirty, n, J.bad, E, 0) IN
                  Set(Append(Adv(ctrl), [Frame("for", d.body, n, env) EXCEPT !.items = Tail(items), !.dirty = J.dirty]),
                      D.cells, envs, status, D.ev, D.bad, r.s.used)
 
@@ -399,8 +424,8 @@ NextFor ==
   /\ AtEnd("for")
   /\ LET f == Top  d == ND(f.node) IN
      IF f.items = <<>> THEN Set(Front(ctrl), cells, envs, status, <<>>, bad, <<>>)
-     ELSE LET D == DoWrites(cells, envs, f.env, <<[o |-> d.tgt, name |-> EX(d.tgt).name, v |-> Data(Head(f.items))]>>,
-                            "for", f.dirty, f.node, bad, <<>>, 0) IN
+     ELSE LET D == DoWrites(cells, envs, f.env, <<Wr(d.tgt, EX(d.tgt).name, Data(Head(f.items)), "for", "")>>,
+                            f.dirty, f.node, bad, <<>>, 0) IN
           Set(Append(Front(ctrl), [f EXCEPT !.i = 1, !.items = Tail(@)]), D.cells, envs, status, D.ev, D.bad, <<>>)
 
 ExecDef ==
